@@ -25,6 +25,8 @@ type Profile struct {
 	NoIndexZero bool
 	// FloatKeys allowed
 	NoFloatKeys bool
+	// NoIdleOpts: do not place options that plenc accepts but ignores (flat on a slice, intern on a non-string)
+	NoIdleOpts bool
 	// MaxFields per struct (default 6)
 	MaxFields int
 }
@@ -476,6 +478,16 @@ func (g *tgen) fieldType(depth int) (*TSpec, string) {
 		case inner.Kind == KMap && !isPtr:
 			if rapid.IntRange(0, 3).Draw(g.t, "protom") == 0 && protoMapValueOK(inner.Elem) {
 				opt = "proto"
+			}
+		}
+		// options plenc accepts without effect: any option on a slice applies to the slice, never to its
+		// elements (flat on []int leaves the elements zig-zag); intern on anything but a string is ignored
+		if opt == "" && !g.p.NoIdleOpts && rapid.IntRange(0, 19).Draw(g.t, "idleopt") == 0 {
+			switch {
+			case inner.Kind == KSlice && !isPtr && (inner.Elem.Under().Kind.IsSignedInt() || stripPtr(inner.Elem).Kind.IsSignedInt()):
+				opt = "flat"
+			case inner.Kind.IsSignedInt() || inner.Kind.IsUnsignedInt() || inner.Kind == KBool || inner.Kind.IsFloat() || inner.Kind == KBytes || inner.Kind == KSlice || inner.Kind == KStruct || inner.Kind == KTime:
+				opt = "intern"
 			}
 		}
 	}
